@@ -114,6 +114,9 @@ def check_graph_leaves(facts, chk, rule):
 
 
 def run(facts, chk, tier, only=None):
+    from . import subs
+    # the run must not abort / wrap on an unsigned subtraction of path or sequence lengths (necessary for any output at all)
+    chk.guard('C18.sub', 'C18.sub:run', lambda: subs.check(facts, chk, 'C18.sub'))
     chk.guard('C18.leaf', 'C18.leaf:run', lambda: check_graph_leaves(facts, chk, 'C18.leaf'))
     p = facts.fn(PI + 'process_indels')
 
